@@ -559,6 +559,12 @@ func runC01(c *Ctx) {
 	checkNormalizeArgs(c)
 	c.Rule("R01k", ruleTextFKActions, 4)
 	checkFKActionGuards(c, "R01k", []string{pSqlite, pMysql, pPostgres})
+	c.Rule("R01n", ruleTextCheckWrap, 3)
+	checkCheckWrap(c, "R01n")
+	c.Rule("R01o", ruleTextImplicitIndexDrop, 1)
+	checkImplicitIndexDrop(c, "R01o")
+	c.Rule("R01p", ruleTextDynRegex, 0)
+	checkDynRegex(c, "R01p")
 	c.Rule("R01m", ruleTextPartOrdinal, 2)
 	checkPartOrdinal(c, "R01m")
 	c.Rule("R01l", ruleTextGeneratedSkipped, 1)
